@@ -3853,6 +3853,8 @@ impl<'s> Semantics<'s> {
             let dst = self.operand_load(block, &detail.operands[0])?;
             let rhs = self.operand_load(block, &detail.operands[1])?;
             let count = self.operand_load(block, &detail.operands[2])?;
+            // the count is masked to 5 (6) bits; a zero count changes nothing, flags included
+            let count = self.masked_count(dst.bits(), count)?;
 
             let bits = dst.bits();
             let tmp = Expr::or(
@@ -3883,10 +3885,11 @@ impl<'s> Semantics<'s> {
                 )?,
             )?;
 
-            block.assign(scalar("CF", 1), cf);
-
-            self.set_zf(block, result.clone())?;
-            self.set_sf(block, result.clone())?;
+            self.set_flag_unless_zero_count(block, "CF", &count, cf)?;
+            let zf = Expr::cmpeq(result.clone(), expr_const(0, result.bits()))?;
+            self.set_flag_unless_zero_count(block, "ZF", &count, zf)?;
+            let sf = self.msb(result.clone())?;
+            self.set_flag_unless_zero_count(block, "SF", &count, sf)?;
 
             self.operand_store(block, &detail.operands[0], result)?;
 
@@ -3909,6 +3912,8 @@ impl<'s> Semantics<'s> {
             let dst = self.operand_load(block, &detail.operands[0])?;
             let rhs = self.operand_load(block, &detail.operands[1])?;
             let count = self.operand_load(block, &detail.operands[2])?;
+            // the count is masked to 5 (6) bits; a zero count changes nothing, flags included
+            let count = self.masked_count(dst.bits(), count)?;
 
             let bits = dst.bits();
             let tmp = Expr::or(
@@ -3935,10 +3940,11 @@ impl<'s> Semantics<'s> {
                 )?,
             )?;
 
-            block.assign(scalar("CF", 1), cf);
-
-            self.set_zf(block, result.clone())?;
-            self.set_sf(block, result.clone())?;
+            self.set_flag_unless_zero_count(block, "CF", &count, cf)?;
+            let zf = Expr::cmpeq(result.clone(), expr_const(0, result.bits()))?;
+            self.set_flag_unless_zero_count(block, "ZF", &count, zf)?;
+            let sf = self.msb(result.clone())?;
+            self.set_flag_unless_zero_count(block, "SF", &count, sf)?;
 
             self.operand_store(block, &detail.operands[0], result)?;
 
